@@ -131,8 +131,31 @@ impl<const MAX_PDI: usize> PdiGuard<MAX_PDI> {
     { unimplemented!() }
 }
 
+/// stand-in for RwLock<MySyncUnsafeCell<[u8; MAX_PDI]>>: `write()` hands out exclusive access to the image (any contents)
+pub struct PdiLock<const MAX_PDI: usize> { pub _p: u8 }
+impl<const MAX_PDI: usize> PdiLock<MAX_PDI> {
+    #[verifier::external_body]
+    pub fn write(&self) -> (r: PdiGuard<MAX_PDI>) { unimplemented!() }
+}
+
+/// stand-in for heapless::Vec<SubDeviceState, N>
+pub struct StateVec<const N: usize> { pub v: Vec<SubDeviceState> }
+impl<const N: usize> StateVec<N> {
+    #[verifier::external_body]
+    pub fn new() -> (r: Self) ensures r.v@.len() == 0 { unimplemented!() }
+    #[verifier::external_body]
+    pub fn push(&mut self, item: SubDeviceState) -> (r: Result<(), SubDeviceState>)
+        ensures
+            (r is Ok) == (old(self).v@.len() < N),
+            r is Ok ==> final(self).v@ == old(self).v@.push(item),
+            r is Err ==> final(self).v@ == old(self).v@,
+    { unimplemented!() }
+}
+
+/*@type file=src/subdevice_group/tx_rx_response.rs name=TxRxResponse subst="heapless::Vec<SubDeviceState, N>=>StateVec<N>" @*/
+
 /// the fields of SubDeviceGroup that the cycle reads
-pub struct Grp<const MAX_PDI: usize> { pub read_pdi_len: usize, pub pdi_len: usize, pub start_address: u32, pub subdevices: Vec<SubDevice> }
+pub struct Grp<const MAX_PDI: usize> { pub read_pdi_len: usize, pub pdi_len: usize, pub start_address: u32, pub subdevices: Vec<SubDevice>, pub pdi: PdiLock<MAX_PDI> }
 
 impl<const MAX_PDI: usize> Grp<MAX_PDI> {
     pub open spec fn wf(&self) -> bool { self.read_pdi_len <= self.pdi_len <= MAX_PDI }
@@ -148,6 +171,82 @@ impl<const MAX_PDI: usize> Grp<MAX_PDI> {
     pub fn len(&self) -> (r: usize)
         ensures r == self.subdevices@.len()
     { unimplemented!() }
+
+/*@fn file=src/subdevice_group/mod.rs impl="impl<const MAX_SUBDEVICES: usize, const MAX_PDI: usize, R: RawRwLock, S, DC> SubDeviceGroup<MAX_SUBDEVICES, MAX_PDI, R, S, DC>" name=tx_rx subst="<'sto>=><const MAX_SUBDEVICES: usize>@@&'sto MainDevice<'sto>=>&MainDevice@@self.inner().pdi_start.start_address=>self.start_address@@self.inner().subdevices.iter()=>self.sd_iter()@@heapless::Vec::<_, MAX_SUBDEVICES>::new()=>StateVec::<MAX_SUBDEVICES>::new()@@frame.await?=>frame.wait().await?" props=C07 attr="#[verifier::loop_isolation(false)] #[verifier::allow_complex_invariants]"
+    requires
+        self.wf(),
+        14 <= maindevice.pdu_loop.area <= 0x7ff,       // frame sizes from "can carry one state check" up (C07 quantifier)
+        self.start_address + self.pdi_len <= u32::MAX,
+        self.subdevices@.len() <= 0xffff,
+        self.subdevices@.len() <= MAX_SUBDEVICES,       // the group was built with this capacity
+    ensures
+        // one reported state per SubDevice of the group
+        r is Ok ==> (r->Ok_0).subdevice_states.v@.len() == self.subdevices@.len(),
+@after "let mut pdi_lock = self.pdi.write();"
+    let ghost img0 = pdi_lock.image@;
+    let ghost mut rx: Seq<u8> = Seq::<u8>::empty();     // what the network returned for the image addresses, in order
+    let ghost mut wsum: int = 0;                          // sum of the working counters of the process-data datagrams
+@loop 0
+    invariant
+        total_bytes_sent <= self.pdi_len,
+        total_checks <= self.subdevices@.len(),
+        subdevices.rest@ == self.subdevices@.skip(total_checks as int),
+        // the output part of the image (and everything behind it) is byte-for-byte what the application wrote
+        forall|i: int| self.read_pdi_len <= i < MAX_PDI ==> pdi_lock.image@[i] == img0[i],
+        // the input part received so far equals what the network returned for those addresses
+        rx.len() == total_bytes_sent,
+        forall|i: int| 0 <= i < total_bytes_sent && i < self.read_pdi_len ==> pdi_lock.image@[i] == rx[i],
+        // reported counter = sum over the process-data datagrams (saturating at u16::MAX)
+        lrw_wkc_sum as int == (if wsum > 0xffff { 0xffff } else { wsum }), wsum >= 0,
+        subdevice_states.v@.len() == total_checks,
+    decreases (self.pdi_len - total_bytes_sent) + (self.subdevices@.len() - total_checks)
+@loop_start 0
+    let ghost img = pdi_lock.image@;
+    let ghost sent0: int = total_bytes_sent as int;
+@before "let (rest, num_checks_in_this_frame) = push_state_checks"
+    proof {
+        // TILING: the process-data datagram of this frame is an LRW at logical address start + (bytes sent so far), carrying
+        // exactly the next n image bytes, n = min(bytes left, free space - 12) > 0: consecutive chunks are contiguous, no gap, no overlap
+        if pushed_chunk is Some {
+            let n = (pushed_chunk->Some_0).0 as int;
+            assert(0 < n && sent0 + n <= self.pdi_len);
+            assert(frame.pdus@.len() == 1);
+            assert(frame.pdus@[0].cmd == Command::Write(Writes::Lrw { address: (self.start_address + sent0) as u32 }));
+            assert(frame.pdus@[0].len == n);
+            assert(frame.pdus@[0].data == img.subrange(sent0, sent0 + n));
+            assert(n == self.pdi_len - sent0 || n == maindevice.pdu_loop.area - 12);
+        } else {
+            assert(sent0 == self.pdi_len);
+        }
+    }
+@after "let received = frame.await?;"
+    let ghost got = received.pdus@;
+    let ghost has_lrw: int = if pushed_chunk is Some { 1int } else { 0int };
+    proof {
+        lemma_state_checks(self.subdevices@.skip(total_checks as int - num_checks_in_this_frame as int), num_checks_in_this_frame as nat);
+        assert(got.len() == has_lrw + num_checks_in_this_frame);
+    }
+@loop_end 0
+    proof {
+        // ghost bookkeeping at the structural end of the frame loop body: what came back for this frame's LRW
+        if pushed_chunk is Some {
+            let n = (pushed_chunk->Some_0).0 as int;
+            rx = rx + got[0].data.subrange(0, n);
+            wsum = wsum + got[0].wkc as int;
+        }
+    }
+@loop 1
+    invariant
+        __it0.rest@.len() <= got.len() - has_lrw,
+        subdevice_states.v@.len() + __it0.rest@.len() == total_checks,
+    decreases __it0.rest@.len()
+@before "Ok(TxRxResponse"
+    proof {
+        // the whole image was sent and every SubDevice's state was requested
+        assert(total_bytes_sent == self.pdi_len);
+        assert(total_checks == self.subdevices@.len());
+    }
+@*/
 
 /*@fn file=src/subdevice_group/mod.rs impl="impl<const MAX_SUBDEVICES: usize, const MAX_PDI: usize, R: RawRwLock, S, DC> SubDeviceGroup<MAX_SUBDEVICES, MAX_PDI, R, S, DC>" name=is_state subst="MainDevice<'_>=>MainDevice@@self.inner().subdevices.iter()=>self.sd_iter()@@frame.await?=>frame.wait().await?" props=C10 attr="#[verifier::loop_isolation(false)] #[verifier::allow_complex_invariants]"
     requires
@@ -181,17 +280,23 @@ impl<const MAX_PDI: usize> Grp<MAX_PDI> {
 @loop 1
     invariant
         __it0.rest@.len() <= got.len(),
-        forall|i: int| base <= i < base + got.len() - __it0.rest@.len() ==> ok_dev(#[trigger] self.subdevices@[i], desired_state),
+        forall|j: int| 0 <= j < got.len() - __it0.rest@.len() ==>
+            reported(self.subdevices@[base + j].configured_address, desired_state, #[trigger] got[j]),
         __it0.rest@ =~= got.skip(got.len() - __it0.rest@.len()),
     ensures
         __it0.rest@.len() == 0,
     decreases __it0.rest@.len()
-@before "let pdu = pdu?;"
-    let ghost jj: int = got.len() - __it0.rest@.len() - 1;
-@after "return Ok(false); }"
+@loop_start 1
+    let ghost jj: int = got.len() - __it0.rest@.len();
     proof {
-        assert(got[jj] == got.skip(jj)[0]);
-        lemma_ok_dev(self.subdevices@[base + jj], desired_state, got[jj]);
+        if __it0.rest@.len() > 0 { assert(got[jj] == got.skip(jj)[0]); }
+    }
+@loop_end 0
+    proof {
+        // every device checked in this frame answered with the requested state (structural anchor: end of the frame loop body)
+        assert forall|i: int| base <= i < base + got.len() implies ok_dev(#[trigger] self.subdevices@[i], desired_state) by {
+            lemma_ok_dev(self.subdevices@[i], desired_state, got[i - base]);
+        }
     }
 @*/
 
